@@ -138,6 +138,8 @@ def run(chk) -> None:
     # ------------------------------------------------------------------ R3
     writers = []
     for mod in repo.by_rel.values():
+        if LIMIT_FIELD not in mod.src:
+            continue
         for node, kind in attr_writes(mod.tree, LIMIT_FIELD):
             writers.append((mod, node, kind))
     chk.floor("C30.R3", f"writers of `{LIMIT_FIELD}`", len(writers), 1)
@@ -157,7 +159,7 @@ def run(chk) -> None:
             reason = f"the stored limit is `{ast.unparse(val)[:60] if val is not None else kind}`, not the `{init_param}` argument"
         chk.ob("C30.R3", "the configured limit reaches the runtime unchanged: `_num_concurrent_runs` is written only by Workflow.__init__ with the `num_concurrent_runs` argument",
                ok, m=mod, node=node, fn=fn, instance=f"limit-writer:{qualname_of(fn) if fn else 'module'}", reason=reason)
-    readers = sum(1 for mod in repo.by_rel.values() for n in ast.walk(mod.tree) if isinstance(n, ast.Attribute) and n.attr == LIMIT_FIELD and isinstance(n.ctx, ast.Load))
+    readers = sum(1 for mod in repo.by_rel.values() if LIMIT_FIELD in mod.src for n in ast.walk(mod.tree) if isinstance(n, ast.Attribute) and n.attr == LIMIT_FIELD and isinstance(n.ctx, ast.Load))
     chk.floor("C30.R3", f"readers of `{LIMIT_FIELD}`", readers, 2)
 
 
@@ -207,13 +209,13 @@ def _table_is_weak(repo) -> bool:
 def _observe_other_runtimes(chk, repo) -> None:
     others = []
     for mod in repo.by_rel.values():
-        if mod.name == BASIC:
+        if mod.name == BASIC or "workflow_run_fn" not in mod.src:
             continue
         for c in ast.walk(mod.tree):
             if isinstance(c, ast.Attribute) and c.attr == "workflow_run_fn" and isinstance(c.ctx, ast.Load):
                 fn = enclosing_function(c)
                 others.append(f"{mod.rel}:{c.lineno} ({qualname_of(fn) if fn else 'module'})")
-    readers = sorted({mod.rel for mod in repo.by_rel.values() for n in ast.walk(mod.tree) if isinstance(n, ast.Attribute) and n.attr == LIMIT_FIELD and isinstance(n.ctx, ast.Load)})
+    readers = sorted({mod.rel for mod in repo.by_rel.values() if LIMIT_FIELD in mod.src for n in ast.walk(mod.tree) if isinstance(n, ast.Attribute) and n.attr == LIMIT_FIELD and isinstance(n.ctx, ast.Load)})
     if others:
         chk.observe(
             "outside the anchored BasicRuntime: the registered run function is also used at " + "; ".join(others[:6])
